@@ -807,6 +807,14 @@ impl Model {
                             step.labels.push("show-columns-ambiguous-name");
                         }
                         step.exp = Exp::RowsEither { a: exact, b: wide };
+                        // a view whose base name was re-bound may be rejected as no longer valid (not a data read,
+                        // so not part of the stale-view signature)
+                        let mut stale = false;
+                        let _ = self.read(&target, 0, &mut stale);
+                        if stale {
+                            step.labels.push("show-columns-of-rebound-view");
+                            step.exp = Exp::RowsOrFail(Box::new(std::mem::replace(&mut step.exp, Exp::Ok)));
+                        }
                     }
                 }
             }
